@@ -114,6 +114,120 @@ fn models(tier: Tier) -> Vec<(String, Arc<StreamModel>, Vec<Plan>)> {
     out
 }
 
+/// `send_all_datagrams` under short `sendmmsg` results.
+///
+/// Loopback UDP never produces a short count, so the resend loop is driven on
+/// an AF_UNIX datagram socketpair wrapped in the real `BatchUdpSocket`: the
+/// peer queue holds about 10 datagrams and the send buffer is minimal, so a
+/// batch is accepted only partially until the reader drains. The reader is the
+/// controlled environment: at every point where the send future is pending it
+/// drains a chosen number of datagrams (the enumeration is over batch size x
+/// datagram size x drain pattern). Oracle: the function returns Ok and every
+/// datagram arrived exactly once, in order, byte-identical.
+fn short_send_product(rep: &mut Report, quick: bool) {
+    use std::os::unix::net::UnixDatagram;
+    use std::task::Poll;
+    let sizes: Vec<usize> = if quick { vec![1, 9, 10, 11, 12, 31, 32, 33, 64, 65, 96] } else { (1..=96).collect() };
+    let lens: Vec<usize> = if quick { vec![1316] } else { vec![16, 188, 1316] };
+    // drain pattern: how many datagrams the reader takes each time the sender is stuck
+    let patterns: Vec<(&str, Vec<usize>)> = vec![("one-at-a-time", vec![1]), ("three", vec![3]), ("all", vec![usize::MAX]), ("1,all,2", vec![1, usize::MAX, 2])];
+    let rt = tokio::runtime::Builder::new_current_thread().enable_all().build().expect("runtime");
+    let mut cases = 0u64;
+    let mut short_seen = 0u64;
+    let mut pendings = 0u64;
+    for &len in &lens {
+        for &n in &sizes {
+            for (pname, pat) in &patterns {
+                cases += 1;
+                let pkts: Vec<Vec<u8>> = (0..n as u32)
+                    .map(|i| {
+                        let mut p = vec![(i as u8) ^ 0x5a; len.max(8)];
+                        p[..4].copy_from_slice(&(1000 + i).to_be_bytes());
+                        p[4..8].copy_from_slice(&(n as u32).to_be_bytes());
+                        p
+                    })
+                    .collect();
+                let res: Result<(Vec<Vec<u8>>, u64, bool), String> = rt.block_on(async {
+                    let (tx, rx) = socket2::Socket::pair(socket2::Domain::UNIX, socket2::Type::DGRAM, None).map_err(|e| e.to_string())?;
+                    tx.set_nonblocking(true).map_err(|e| e.to_string())?;
+                    let _ = tx.set_send_buffer_size(1);
+                    let rx: UnixDatagram = rx.into();
+                    rx.set_nonblocking(true).map_err(|e| e.to_string())?;
+                    let sock = srtla_send::net::BatchUdpSocket::new(tx).map_err(|e| e.to_string())?;
+                    let bufs: Vec<&[u8]> = pkts.iter().map(|p| p.as_slice()).collect();
+                    // is the first sendmmsg really short on this kernel? (non-vacuity)
+                    let mut fut = std::pin::pin!(srtla_send::net::send_all_datagrams(&sock, &bufs));
+                    let mut got: Vec<Vec<u8>> = Vec::new();
+                    let mut buf = vec![0u8; 2048];
+                    let mut stuck = 0u64;
+                    let mut k = 0usize;
+                    let mut short = false;
+                    let ok = loop {
+                        let r = std::future::poll_fn(|cx| Poll::Ready(fut.as_mut().poll(cx))).await;
+                        match r {
+                            Poll::Ready(Ok(())) => break true,
+                            Poll::Ready(Err(e)) => return Err(format!("send_all_datagrams returned an error: {e}")),
+                            Poll::Pending => {
+                                stuck += 1;
+                                short = true;
+                                if stuck > 10_000 {
+                                    return Err("send_all_datagrams never finished although the reader kept draining".to_string());
+                                }
+                                let want = pat[k % pat.len()];
+                                k += 1;
+                                let mut taken = 0usize;
+                                while taken < want {
+                                    match rx.recv(&mut buf) {
+                                        Ok(m) => {
+                                            got.push(buf[..m].to_vec());
+                                            taken += 1;
+                                        }
+                                        Err(_) => break,
+                                    }
+                                }
+                                // let the I/O driver deliver the writability event
+                                tokio::time::sleep(std::time::Duration::from_micros(300)).await;
+                            }
+                        }
+                    };
+                    let _ = ok;
+                    while let Ok(m) = rx.recv(&mut buf) {
+                        got.push(buf[..m].to_vec());
+                    }
+                    Ok((got, stuck, short))
+                });
+                match res {
+                    Err(e) => rep.add_violation(crate::evidence::Violation {
+                        key: "short-send-loop-failed".into(),
+                        message: format!("batch of {n} x {len} bytes, reader pattern {pname}: {e}"),
+                        replay: json!({"exploration": "short-send", "batch": n, "len": len, "pattern": pname}),
+                    }),
+                    Ok((got, stuck, short)) => {
+                        pendings += stuck;
+                        if short {
+                            short_seen += 1;
+                        }
+                        if got != pkts {
+                            let seqs: Vec<u32> = got.iter().map(|p| u32::from_be_bytes([p[0], p[1], p[2], p[3]]) - 1000).collect();
+                            rep.add_violation(crate::evidence::Violation {
+                                key: "short-send-lost-duplicated-or-reordered".into(),
+                                message: format!("batch of {n} x {len} bytes, reader pattern {pname}: send_all_datagrams returned Ok but the wire saw {} datagrams, indices {seqs:?}", got.len()),
+                                replay: json!({"exploration": "short-send", "batch": n, "len": len, "pattern": pname}),
+                            });
+                        }
+                    }
+                }
+            }
+        }
+    }
+    rep.traces += cases;
+    rep.transitions += pendings + cases;
+    rep.set("short_send_product", json!({"cases": cases, "cases_in_which_the_sender_got_stuck (short sendmmsg)": short_seen, "pending_points": pendings, "batch_sizes": sizes.len(), "datagram_lengths": lens, "reader_patterns": patterns.iter().map(|p| p.0).collect::<Vec<_>>()}));
+    if short_seen == 0 {
+        rep.observe("short sendmmsg results could not be provoked on this kernel: the resend loop of send_all_datagrams was not exercised".into());
+    }
+}
+
 pub fn run(tier: Tier) -> Report {
     let mut rep = Report::new();
     if let Err(e) = glue_fingerprint() {
@@ -135,6 +249,7 @@ pub fn run(tier: Tier) -> Report {
         );
         rep.set(&format!("inits[{label}]"), json!(m.inits.iter().map(|i| i.0.clone()).collect::<Vec<_>>()));
     }
+    short_send_product(&mut rep, tier.is_quick());
     if !tier.is_quick() {
         // thorough tier: bind the mirrored glue to the real event loop by one real-time run
         match crate::conformance::check() {
@@ -143,13 +258,21 @@ pub fn run(tier: Tier) -> Report {
         }
     }
     rep.set("oracle", json!("ledger + wire monitor after every event: every client-type datagram on a receiver socket is, byte for byte, the next pending accepted datagram of that link (integrity, per-link order, pairing); after each flush tick every link's queue is empty and everything accepted has been seen on the wire unless that link was reset in between (teardown, re-registration, reconnect) or its receiver is closed; between flushes a queue never exceeds 32; a datagram is never dropped while the session is established and a usable link exists; extra copies are byte-identical, only of data packets, only on links the selector reports stall-gated, at most ceil(routed/100) per gated link; the three batch vectors stay in step"));
-    rep.assume("short sendmmsg results cannot be forced on loopback: send_all_datagrams' resend loop is not exercised (stated as not exercised, not claimed)");
+    rep.assume("short sendmmsg results cannot be forced on loopback UDP: the resend loop of send_all_datagrams is driven separately on an AF_UNIX datagram socketpair wrapped in the real BatchUdpSocket (batch size x datagram size x reader drain pattern)");
     rep.assume("datagrams sent into a closed receiver socket are unobservable; for that link the monitor only checks the queue discipline until the socket is reopened and the queue has drained");
     rep.assume("the select! glue is mirrored (world.rs) and bound by a call-order + token digest fingerprint; real tokio timer behaviour is represented by the Tflush / Thk spacing");
     rep
 }
 
 pub fn replay(v: &Value) -> Result<(), String> {
+    if v["exploration"] == "short-send" {
+        let mut rep = Report::new();
+        short_send_product(&mut rep, false);
+        return match rep.violations.first() {
+            None => Ok(()),
+            Some(x) => Err(format!("[{}] {}", x.key, x.message)),
+        };
+    }
     let mut ms = Vec::new();
     for tier in [Tier::Quick, Tier::Thorough] {
         for (l, m, _) in models(tier) {
